@@ -195,6 +195,19 @@ fn nested_core(s: &str) -> Result<(&str, usize), &'static str> {
     // and is asleep with no CPU time consumed between two looks, it is blocked.
     use peginator::PegParser;
     use std::sync::mpsc;
+    {
+        // ... and a balanced nested trace written on *this* thread through a tracer value of its own (what a nested parser
+        // of another grammar does while a rule of the outer parse is still open)
+        use peginator::{IndentedTracer, ParseOk, ParseResult, ParseSettings, ParseState, ParseTracer};
+        let settings = ParseSettings::default();
+        let mut tracer = IndentedTracer::new();
+        let st = ParseState::new("inner", &settings);
+        tracer.print_trace_start(&st, "Inner");
+        tracer.print_trace_start(&st, "InnerChild");
+        let r1: ParseResult<()> = Ok(ParseOk { result: (), state: st.clone() });
+        tracer.print_trace_result(&r1);
+        tracer.print_trace_result(&r1);
+    }
     let (tx, rx) = mpsc::channel::<Result<String, bool>>();
     std::thread::spawn(move || {
         let tid = std::fs::read_link("/proc/thread-self")
